@@ -4,7 +4,7 @@
 From DS Require Import Base.Prelude Model.MsvTypes Model.MsvModel Model.MsvFloat Gen.MsvTables.
 From DS Require Import Proofs.MsvProofs Proofs.MsvKin.
 From Coq Require Import Reals Lra.
-From Flocq Require Import Core.Raux IEEE754.BinarySingleNaN.
+From Flocq Require Import Core.Zaux Core.Raux Core.Defs Core.Float_prop Core.Generic_fmt Core.FLT IEEE754.BinarySingleNaN.
 
 (* the framing model hard-codes CR LF *)
 Lemma gen_tail : g_tail = [13; 10].
@@ -171,4 +171,98 @@ Proof.
   unfold rows_dof, rcfg, gen_cfg. cbn [c_servos c_table].
   generalize r_of_bits. intros f. unfold g_table, g_servos. cbn [map].
   repeat (constructor; try reflexivity).
+Qed.
+
+(* ---- arithmetic laws of the time checks of _programTrack ---------------------------------------- *)
+(* law 1 (pt_law): start + 0 * gap is not in the past when start is not.  Binary64: 0 * 0.2 = +0 and
+   x + (+0) compares like x. *)
+Lemma f_gap0 : f_mul (f_ofZ 0) (f_of_bits g_pt_timegap_bits) = f_zero.
+Proof. vm_compute. reflexivity. Qed.
+
+Lemma f_add_zero_cmp (t0 now : F) : Bcompare (f_add t0 f_zero) now = Bcompare t0 now.
+Proof.
+  destruct t0 as [s|s| |s m e Hb]; try reflexivity.
+  destruct s; destruct now as [s'|s'| |s' m' e' Hb']; reflexivity.
+Qed.
+
+Lemma f_pt_law tk : pt_law fops (fcfg tk).
+Proof.
+  unfold pt_law. intros t0 now H. cbn [nadd nmul nofZ nlt fops c_gap fcfg gen_cfg] in *.
+  rewrite f_gap0. unfold f_lt in *. rewrite f_add_zero_cmp. exact H.
+Qed.
+
+Lemma r_pt_law tk : pt_law rops (rcfg tk).
+Proof.
+  unfold pt_law. intros t0 now H. cbn [nadd nmul nofZ nlt rops] in *. apply r_lt_false in H.
+  unfold r_lt. destruct (Rlt_dec _ _) as [L|L]; [|reflexivity]. cbn in L. lra.
+Qed.
+
+(* law 5: a time that is not before `now` is not before `now - 5` (the bisect of _programTrack never
+   drops the point just appended).  Binary64: monotonicity of rounding (Flocq). *)
+Definition five : F := f_ofZ 5.
+
+Lemma five_finite : is_finite five = true.
+Proof. vm_compute. reflexivity. Qed.
+
+Lemma five_sign : Bsign five = false.
+Proof. vm_compute. reflexivity. Qed.
+
+Lemma five_nonneg : (0 <= B2R five)%R.
+Proof.
+  pose proof five_finite as Hf. pose proof five_sign as Hs.
+  destruct five as [s|s| |s m e Hb]; try discriminate.
+  - cbn. lra.
+  - cbn in Hs. subst s. cbn [B2R]. apply F2R_ge_0. cbn. lia.
+Qed.
+
+Lemma f_lt_nan_r (p : F) : f_lt p B754_nan = false.
+Proof. unfold f_lt. destruct p; reflexivity. Qed.
+
+Lemma f_law5_aux : forall p now : F, f_lt p now = false -> f_lt p (f_sub now five) = false.
+Proof.
+  intros p now H.
+  destruct (is_finite now) eqn:Hfin.
+  - pose proof (Bminus_correct 53 1024 prec_ok emax_ok mode_NE now five Hfin five_finite) as C.
+    fold (f_sub now five) in C.
+    destruct (Rlt_bool _ _) in C.
+    + destruct C as (Hr & Hfd & _).
+      assert (Hle : (B2R (f_sub now five) <= B2R now)%R).
+      { rewrite Hr. rewrite <- (round_generic radix2 (SpecFloat.fexp 53 1024) (round_mode mode_NE) (B2R now)) at 2;
+          [|apply generic_format_B2R].
+        apply round_le; [apply (fexp_correct 53 1024 prec_ok)|apply valid_rnd_round_mode|].
+        pose proof five_nonneg. lra. }
+      unfold f_lt in *.
+      destruct p as [s|[|]| |s m e Hb].
+      * rewrite Bcompare_correct in H |- *; auto.
+        destruct (Rcompare (B2R (B754_zero s)) (B2R now)) eqn:E; try discriminate;
+          destruct (Rcompare (B2R (B754_zero s)) (B2R (f_sub now five))) eqn:E'; try reflexivity;
+          apply Rcompare_Lt_inv in E'; [apply Rcompare_Eq_inv in E|apply Rcompare_Gt_inv in E]; lra.
+      * destruct now; try discriminate; cbn in H; discriminate.
+      * destruct (f_sub now five); try discriminate; reflexivity.
+      * destruct (f_sub now five); reflexivity.
+      * rewrite Bcompare_correct in H |- *; auto.
+        destruct (Rcompare (B2R (B754_finite s m e Hb)) (B2R now)) eqn:E; try discriminate;
+          destruct (Rcompare (B2R (B754_finite s m e Hb)) (B2R (f_sub now five))) eqn:E'; try reflexivity;
+          apply Rcompare_Lt_inv in E'; [apply Rcompare_Eq_inv in E|apply Rcompare_Gt_inv in E]; lra.
+    + destruct C as (Hov & Hs). rewrite five_sign in Hs. cbn in Hs. rewrite Hs in Hov.
+      assert (Hd : f_sub now five = B754_infinity true).
+      { destruct (f_sub now five) as [s|s| |s m e Hb]; cbn in Hov; try discriminate.
+        injection Hov as ->. reflexivity. }
+      rewrite Hd. unfold f_lt. destruct p as [s|[|]| |s m e Hb]; reflexivity.
+  - destruct now as [s|s| |s m e Hb]; try discriminate.
+    + assert (Hd : f_sub (B754_infinity s) five = B754_infinity s).
+      { unfold f_sub, five. pose proof five_finite as Hf. unfold five in Hf.
+        destruct (f_ofZ 5) as [s'|s'| |s' m' e' Hb']; try discriminate; reflexivity. }
+      rewrite Hd. exact H.
+    + assert (Hd : f_sub B754_nan five = B754_nan) by (unfold f_sub; destruct five; reflexivity).
+      rewrite Hd. apply f_lt_nan_r.
+Qed.
+
+Lemma f_law5 : forall p now : F, nlt fops p now = false -> nlt fops p (nsub fops now (nofZ fops 5)) = false.
+Proof. exact f_law5_aux. Qed.
+
+Lemma r_law5 : forall p now : R, nlt rops p now = false -> nlt rops p (nsub rops now (nofZ rops 5)) = false.
+Proof.
+  intros p now H. cbn [nlt nsub nofZ rops] in *. apply r_lt_false in H.
+  unfold r_lt. destruct (Rlt_dec _ _) as [L|L]; [|reflexivity]. lra.
 Qed.
